@@ -21,6 +21,12 @@
 // of short spin rounds, every 8th followed by a yield, per thread and loop) is used up; nothing
 // ever waits unboundedly.
 //
+// Further actions (boundary instance of the specification): Init with issuing thread / flushDenormals, loops whose
+// task count k, outer count, index type / API variant come from the specification, InitBurst (cnt initialisations,
+// the i-th argument given by the spec's formula), LoopBurst (cnt loops recorded into one table), LoopPair (two calls
+// released together by a spin barrier, one table per call), actions issued by "early-thread" (a thread that exists
+// before the first action).  Only one thread acts at a time except in LoopPair.
+//
 //   drv_tasking_init --hw
 //   drv_tasking_init --in histories.ndjson --out obs.ndjson [--par P] [--timeout-s T]
 // input line : {"id":7,"h":[{"a":"Init","arg":{"n":3}},{"a":"Query","arg":{"from":"init-thread"}},
@@ -36,12 +42,17 @@
 #include <algorithm>
 #include <atomic>
 #include <chrono>
+#include <condition_variable>
 #include <fstream>
+#include <functional>
+#include <mutex>
+#include <stdexcept>
 #include <string>
 #include <thread>
 #include <vector>
 #include "json.h"
 #include "rkcommon/tasking/parallel_for.h"
+#include "rkcommon/tasking/parallel_foreach.h"
 #include "rkcommon/tasking/tasking_system_init.h"
 
 using vj::Json;
@@ -93,7 +104,7 @@ struct ThreadBudget
   int left;
 };
 static thread_local ThreadBudget tl_budget = {0u, 0};
-static unsigned g_epoch = 0;
+static std::atomic<unsigned> g_epoch{0};
 
 static inline void leafBody(LoopRec &L, int idx)
 {
@@ -127,21 +138,64 @@ static inline void leafBody(LoopRec &L, int idx)
     L.overflow.store(1);
 }
 
-static Json runLoopHere(const std::string &shape, int k, int outer, int target, int patience, int work)
+// what a Loop step asks for
+struct LoopSpec
 {
-  LoopRec L;
-  long total = (long)k * (shape == "nested" ? outer : 1);
-  L.ev.assign((size_t)(2 * total + 64), 0);
+  std::string shape = "flat";   // flat | nested
+  std::string api = "for:int";  // index type / API variant
+  long k = 1;                   // tasks (inner tasks when nested)
+  int outer = 1;                // outer tasks when nested
+};
+
+template <typename I>
+static void issueFor(LoopRec &L, const LoopSpec &sp)
+{
+  if (sp.shape == "nested")
+    tasking::parallel_for(sp.outer, [&](int) { tasking::parallel_for((I)sp.k, [&](I i) { leafBody(L, (int)i); }); });
+  else
+    tasking::parallel_for((I)sp.k, [&](I i) { leafBody(L, (int)i); });
+}
+
+// issue one parallel loop through the requested API variant (all of them end in rkcommon's parallel_for)
+static void issue(LoopRec &L, const LoopSpec &sp)
+{
+  const std::string &a = sp.api;
+  if (a == "for:int") issueFor<int>(L, sp);
+  else if (a == "for:size_t") issueFor<size_t>(L, sp);
+  else if (a == "for:u8") issueFor<unsigned char>(L, sp);
+  else if (a == "for:short") issueFor<short>(L, sp);
+  else if (a == "for:i64") issueFor<long long>(L, sp);
+  else if (a == "for:int:lvalue") {          // the functor is an lvalue (TASK_T deduced as a reference)
+    auto f = [&](int i) { leafBody(L, i); };
+    tasking::parallel_for((int)sp.k, f);
+  } else if (a == "blocks") {
+    tasking::parallel_in_blocks_of<4>((int)sp.k, [&](int b, int e) { for (int i = b; i < e; ++i) leafBody(L, i); });
+  } else if (a == "foreach") {
+    std::vector<int> v((size_t)sp.k);
+    for (size_t i = 0; i < v.size(); ++i) v[i] = (int)i;
+    tasking::parallel_foreach(v, [&](int &x) { leafBody(L, x); });
+  } else
+    throw std::runtime_error("unknown api variant " + a);
+}
+
+static void prepare(LoopRec &L, long totalBodies, int target, int work)
+{
+  L.ev.assign((size_t)(2 * totalBodies + 64), 0);
   L.who.assign(L.ev.size(), 0ul);
   L.target = target;
-  L.patience = patience;
   L.work = work;
+}
+
+static void arm(LoopRec &L, int patience)   // before every single loop
+{
+  L.inside.store(0);
+  L.released.store(0);
+  L.patience = patience;
   L.epoch = ++g_epoch;
-  if (shape == "nested") {
-    tasking::parallel_for(outer, [&](int) { tasking::parallel_for(k, [&](int i) { leafBody(L, i); }); });
-  } else {
-    tasking::parallel_for(k, [&](int i) { leafBody(L, i); });
-  }
+}
+
+static Json collect(LoopRec &L, const char *key, Json &o)
+{
   unsigned n = std::min<unsigned>(L.stamp.load(), (unsigned)L.ev.size());
   Json d = Json::array();
   bool malformed = L.overflow.load() != 0;
@@ -155,61 +209,182 @@ static Json runLoopHere(const std::string &shape, int k, int outer, int target, 
   }
   std::sort(ids.begin(), ids.end());
   ids.erase(std::unique(ids.begin(), ids.end()), ids.end());
-  Json o = Json::object();
-  o.set("deltas", d);
-  o.set("k", k);
-  if (shape == "nested") o.set("outer", outer);
-  o.set("bodies", (long long)bodies);
-  o.set("threads", (long long)ids.size());
-  o.set("target", target);
-  o.set("lingering_ended_early", L.released.load() != 0);
+  o.set(key, d);
+  o.set(std::string("bodies_") + key, (long long)bodies);
+  o.set(std::string("threads_") + key, (long long)ids.size());
   if (malformed) o.set("malformed", true);
   return o;
 }
+
+static Json runLoopHere(const LoopSpec &sp, int target, int patience, int work)
+{
+  LoopRec L;
+  prepare(L, sp.k * (sp.shape == "nested" ? sp.outer : 1), target, work);
+  arm(L, patience);
+  issue(L, sp);
+  Json o = Json::object();
+  collect(L, "deltas", o);
+  o.set("k", (long long)sp.k);
+  if (sp.shape == "nested") o.set("outer", sp.outer);
+  o.set("target", target);
+  o.set("lingering_ended_early", L.released.load() != 0);
+  return o;
+}
+
+// cnt loops in a row recorded into ONE table (the concatenation of their recordings); threads linger only in the
+// first two, every 16th and the last four loops (a hidden counter would show where it wraps)
+static Json runLoopBurstHere(long cnt, long k, int target, int patience)
+{
+  LoopRec L;
+  prepare(L, k * cnt, target, 0);
+  LoopSpec sp;
+  sp.k = k;
+  for (long i = 0; i < cnt; ++i) {
+    bool linger = i < 2 || i + 4 >= cnt || (i % 16) == 0;
+    arm(L, linger ? patience : 0);
+    issue(L, sp);
+  }
+  Json o = Json::object();
+  collect(L, "deltas", o);
+  o.set("k", (long long)k);
+  o.set("loops", (long long)cnt);
+  return o;
+}
+
+// a thread that exists before the first action of the history (and before any initialisation)
+struct EarlyThread
+{
+  std::mutex m;
+  std::condition_variable cv;
+  std::function<void()> job;
+  bool has = false, done = false;
+  std::thread t;
+  void start()
+  {
+    t = std::thread([this]() {
+      for (;;) {
+        std::unique_lock<std::mutex> lk(m);
+        cv.wait(lk, [this]() { return has; });
+        std::function<void()> j = job;
+        has = false;
+        lk.unlock();
+        j();
+        lk.lock();
+        done = true;
+        cv.notify_all();
+      }
+    });
+    t.detach();
+  }
+  void run(const std::function<void()> &j)
+  {
+    std::unique_lock<std::mutex> lk(m);
+    job = j;
+    has = true;
+    done = false;
+    cv.notify_all();
+    cv.wait(lk, [this]() { return done; });
+  }
+};
 
 // ---------------------------------------------------------------------------
 struct World
 {
   int hw;
-  int lastN = 0;   // argument of the latest Init (0: none yet); only used to size the loops
-  World() { hw = (int)std::thread::hardware_concurrency(); if (hw < 1) hw = 1; }
+  int lastN = 0;   // argument of the latest Init (0: none yet); only used to tune the lingering and to size legacy loops
+  EarlyThread early;
+  World()
+  {
+    hw = (int)std::thread::hardware_concurrency();
+    if (hw < 1) hw = 1;
+    early.start();
+  }
+
+  // perform fn on the requested issuing thread; only one thread acts at a time (the others are idle)
+  void runOn(const std::string &from, const std::function<void()> &fn)
+  {
+    if (from == "second-thread") {
+      std::thread t(fn);
+      t.join();
+    } else if (from == "early-thread")
+      early.run(fn);
+    else
+      fn();
+  }
 
   Json step(const Json &st)
   {
     const std::string a = st["a"].str();
     const Json &arg = st["arg"];
     Json o = Json::object();
+    const std::string from = arg.has("from") ? arg["from"].str() : std::string("init-thread");
     if (a == "Init") {
       int n = (int)arg["n"].num();
-      tasking::initTaskingSystem(n);
+      bool fz = arg.has("fz") && arg["fz"].boolean();
+      bool twoArgs = arg.has("fz");
+      runOn(from, [&]() {
+        if (twoArgs) tasking::initTaskingSystem(n, fz);
+        else tasking::initTaskingSystem(n);
+      });
       lastN = n;
       return o;
     }
-    const bool second = arg["from"].str() == "second-thread";
+    if (a == "InitBurst") {
+      long cnt = (long)arg["cnt"].num();
+      int n = (int)arg["n"].num();
+      const Json &cyc = arg["cyc"];
+      for (long i = 1; i <= cnt; ++i) {
+        int x = (i == cnt) ? n : (int)cyc[(size_t)((i - 1) % (long)cyc.size())].num();
+        tasking::initTaskingSystem(x);
+      }
+      lastN = n;
+      o.set("inits", (long long)cnt);
+      return o;
+    }
     if (a == "Query") {
       int r = -12345;
-      if (second) {
-        std::thread t([&]() { r = tasking::numTaskingThreads(); });
-        t.join();
-      } else
-        r = tasking::numTaskingThreads();
+      runOn(from, [&]() { r = tasking::numTaskingThreads(); });
       o.set("r", r);
       return o;
     }
-    if (a == "Loop") {
-      const std::string shape = arg["shape"].str();
+    int patience = arg.has("patience") ? (int)arg["patience"].num() : 200;
+    int work = arg.has("work") ? (int)arg["work"].num() : 0;
+    int base = lastN > 0 ? lastN : hw;
+    int target = base + 1;
+    if (a == "Loop" || a == "LoopPair") {
+      LoopSpec sp;
+      sp.shape = arg["shape"].str();
+      if (arg.has("api")) sp.api = arg["api"].str();
       int mult = arg.has("mult") ? (int)arg["mult"].num() : 4;
-      int patience = arg.has("patience") ? (int)arg["patience"].num() : 200;
-      int work = arg.has("work") ? (int)arg["work"].num() : 0;
-      int base = lastN > 0 ? lastN : hw;
-      int k = std::max(1, mult * base);
-      int target = base + 1;
-      int outer = std::min(base + 1, 12);   // nested: more outer tasks than the configured count (an outer team alone can exceed it)
-      if (second) {
-        std::thread t([&]() { o = runLoopHere(shape, k, outer, target, patience, work); });
-        t.join();
-      } else
-        o = runLoopHere(shape, k, outer, target, patience, work);
+      sp.k = arg.has("k") ? (long)arg["k"].num() : (long)std::max(1, mult * base);
+      // nested: more outer tasks than the configured count (an outer team alone can exceed it)
+      sp.outer = arg.has("outer") ? (int)arg["outer"].num() : std::min(base + 1, 12);
+      if (a == "Loop") {
+        runOn(from, [&]() { o = runLoopHere(sp, target, patience, work); });
+        return o;
+      }
+      // two calls at the same moment: this thread and a second one, released together by a spin barrier;
+      // every call has its own table and its own stamp counter (the contract bounds each call)
+      std::atomic<int> arrived{0};
+      Json o1, o2;
+      auto one = [&](Json *out) {
+        arrived.fetch_add(1);
+        while (arrived.load() < 2) sched_yield();
+        *out = runLoopHere(sp, target, patience, work);
+      };
+      std::thread t([&]() { one(&o2); });
+      one(&o1);
+      t.join();
+      o.set("d1", o1["deltas"]);
+      o.set("d2", o2["deltas"]);
+      o.set("k", (long long)sp.k);
+      if (o1.has("malformed") || o2.has("malformed")) o.set("malformed", true);
+      return o;
+    }
+    if (a == "LoopBurst") {
+      long cnt = (long)arg["cnt"].num();
+      long k = (long)arg["k"].num();
+      runOn(from, [&]() { o = runLoopBurstHere(cnt, k, target, patience); });
       return o;
     }
     o.set("unknown_action", a);
